@@ -88,7 +88,11 @@ type Session struct {
 	Delay   func(dir string, p *snref.Pkt, n int) time.Duration
 	stalled bool
 	unstall chan struct{}
+	mqFail  int // the next mqFail writes of the gateway to the broker return an error
 }
+
+// FailBrokerWrites makes the next n writes of the gateway on the broker connection fail (nothing is delivered).
+func (s *Session) FailBrokerWrites(n int) { s.mu.Lock(); s.mqFail = n; s.mu.Unlock() }
 
 // NewSession creates the links and starts the real session handler.
 // snHandler is called (in the client peer's goroutine) for every datagram the
@@ -167,7 +171,19 @@ func (w *World) newSession(snHandler func(s *Session, p *snref.Pkt, raw []byte),
 		if from == s.MQ.A {
 			kind = MQOut
 		}
-		w.Tr.Add(id, kind, b, "")
+		seq := w.Tr.Add(id, kind, b, "")
+		if kind == MQOut {
+			s.mu.Lock()
+			fail := s.mqFail > 0
+			if fail {
+				s.mqFail--
+			}
+			s.mu.Unlock()
+			if fail {
+				w.Tr.setFault(seq, "senderr")
+				return memnet.Fail
+			}
+		}
 		return memnet.Pass
 	})
 
